@@ -24,6 +24,7 @@ func c07(c *Ctx) {
 		"(nonce) generateSegmentNonce rejects segment numbers >= 2^32-1 and writes prefix, 32-bit big-endian counter and last flag at disjoint offsets; writer and reader pass their own segment counter, the writer passes last=false in Write and last=true in Close, the reader passes last exactly when the source ended; each counter is incremented on every path that emitted/consumed a segment; " +
 		"(closed) Write after Close fails and Close is idempotent; " +
 		"(retry) the keyset-level reader rewinds the replay buffer on every path on which a candidate key consumed input and failed, before the next candidate is tried, and reports failure when no candidate matched. " +
+		"(buffered) every segment the writer hands to the segment encrypter is its own buffer from offset 0 (to plaintextPos in Close), or caller memory only under a dominating plaintextPos == 0 — bytes buffered by earlier calls cannot be skipped. " +
 		"Not decided: buffer arithmetic across call boundaries (chunking independence), format interoperability."
 	c07SegAuth(c)
 	c07Release(c)
@@ -31,6 +32,7 @@ func c07(c *Ctx) {
 	c07Nonce(c)
 	c07Closed(c)
 	c07Retry(c)
+	c07Buffered(c)
 }
 
 func c07SegAuth(c *Ctx) {
